@@ -469,6 +469,42 @@ func skolemHint(lines []string, goalNeg string) (extra []string, newGoal string)
 			}
 		}
 	}
+	if sort != "Int" && sort != "Bool" && !strings.HasPrefix(sort, "(") {
+		// hypotheses over two values of this sort (injectivity, ...) at the pairs built from the constant and the
+		// declared constants of the same sort (parameters, locals)
+		cands := []string{sk}
+		for _, l := range lines {
+			if strings.HasPrefix(l, "(declare-fun ") && strings.HasSuffix(l, " () "+sort+")") && len(cands) < 6 {
+				cands = append(cands, strings.TrimSuffix(strings.TrimPrefix(l, "(declare-fun "), " () "+sort+")"))
+			}
+		}
+		n2 := 0
+		for _, l := range lines {
+			if !strings.HasPrefix(l, "(assert ") || !strings.Contains(l, "(forall ((bv$") {
+				continue
+			}
+			pos := 0
+			for n2 < 200 {
+				s2, e2, nm2, so2, bd2, ok2 := findForall2(l, pos)
+				if !ok2 {
+					break
+				}
+				pos = e2
+				if so2[0] != sort || so2[1] != sort || strings.Contains(bd2, "(forall ") {
+					continue
+				}
+				for _, a := range cands {
+					for _, b := range cands {
+						if a == b {
+							continue
+						}
+						extra = append(extra, l[:s2]+substVar(substVar(bd2, nm2[0], a), nm2[1], b)+l[e2:])
+						n2++
+					}
+				}
+			}
+		}
+	}
 	if sort == "Int" {
 		// hypotheses over two integers (sorted, duplicate-free, ...) at the pairs built from the constant, its
 		// successor and the ground slice indices of the VC (e.g. the position a loop stopped at)
@@ -559,16 +595,20 @@ func findForall2(s string, from int) (st, en int, names, sorts [2]string, body s
 // instances of hypotheses.
 func skolemHint2(lines []string, goalNeg string) (extra []string, newGoal string) {
 	st, en, names, sorts, body, ok := findForall2(goalNeg, 0)
-	if !ok || st != 0 || sorts[0] != "Int" || sorts[1] != "Int" || strings.Contains(body, "(forall ") || strings.Contains(body, "(exists ") || strings.HasPrefix(body, "(! ") {
+	if !ok || st != 0 || sorts[0] != sorts[1] || strings.Contains(body, "(forall ") || strings.Contains(body, "(exists ") || strings.HasPrefix(body, "(! ") {
 		return nil, goalNeg
 	}
+	gsort := sorts[0]
 	var sk [2]string
 	for k := 0; k < 2; k++ {
 		sk[k] = "sk$" + strings.NewReplacer("bv$", "", "$", "_").Replace(names[k])
-		extra = append(extra, fmt.Sprintf("(declare-fun %s () Int)", sk[k]))
+		extra = append(extra, fmt.Sprintf("(declare-fun %s () %s)", sk[k], gsort))
 	}
 	newGoal = goalNeg[:st] + substVar(substVar(body, names[0], sk[0]), names[1], sk[1]) + goalNeg[en:]
-	cands := []string{sk[0], sk[1], "(+ " + sk[0] + " 1)", "(+ " + sk[1] + " 1)"}
+	cands := []string{sk[0], sk[1]}
+	if gsort == "Int" {
+		cands = append(cands, "(+ "+sk[0]+" 1)", "(+ "+sk[1]+" 1)")
+	}
 	n := 0
 	// the exact pair for every hypothesis first (latest hypotheses first: they describe the state the goal is
 	// about), the shifted pairs afterwards while the budget lasts
@@ -584,7 +624,7 @@ func skolemHint2(lines []string, goalNeg string) (extra []string, newGoal string
 				break
 			}
 			pos = e2
-			if so2[0] != "Int" || so2[1] != "Int" || !strings.HasPrefix(nm2[0], "bv$") || strings.Contains(bd2, "(forall ") {
+			if so2[0] != gsort || so2[1] != gsort || !strings.HasPrefix(nm2[0], "bv$") || strings.Contains(bd2, "(forall ") {
 				continue
 			}
 			extra = append(extra, l[:s2]+substVar(substVar(bd2, nm2[0], sk[0]), nm2[1], sk[1])+l[e2:])
@@ -597,7 +637,7 @@ func skolemHint2(lines []string, goalNeg string) (extra []string, newGoal string
 		}
 		pos := 0
 		for n < 400 {
-			if s2, e2, nm2, so2, bd2, ok2 := findForall2(l, pos); ok2 && so2[0] == "Int" && so2[1] == "Int" && strings.HasPrefix(nm2[0], "bv$") && (func() bool { s1, _, _, _, _, ok1 := findForall(l, pos); return !ok1 || s1 >= s2 })() {
+			if s2, e2, nm2, so2, bd2, ok2 := findForall2(l, pos); ok2 && so2[0] == gsort && so2[1] == gsort && strings.HasPrefix(nm2[0], "bv$") && (func() bool { s1, _, _, _, _, ok1 := findForall(l, pos); return !ok1 || s1 >= s2 })() {
 				pos = e2
 				if strings.Contains(bd2, "(forall ") {
 					continue
@@ -615,7 +655,7 @@ func skolemHint2(lines []string, goalNeg string) (extra []string, newGoal string
 				break
 			}
 			pos = e2
-			if so != "Int" || strings.Contains(bd, "(forall ") {
+			if so != gsort || strings.Contains(bd, "(forall ") {
 				continue
 			}
 			for _, a := range cands {
